@@ -282,8 +282,10 @@ def run_ids(spec, res):
     xmlschema = env.activate_repo()
     from lxml import etree
     text = (f'<xs:schema xmlns:xs="{XS}"><xs:element name="r"><xs:complexType><xs:sequence>'
-            f'<xs:element name="e" minOccurs="0" maxOccurs="unbounded"><xs:complexType>'
-            f'<xs:attribute name="id" type="xs:ID"/><xs:attribute name="ref" type="xs:IDREF"/>'
+            f'<xs:element name="e" minOccurs="0" maxOccurs="unbounded"><xs:complexType><xs:sequence>'
+            f'<xs:element name="q" type="xs:IDREF" minOccurs="0" maxOccurs="unbounded"/>'
+            f'<xs:element name="i" type="xs:ID" minOccurs="0"/><xs:element name="qs" type="xs:IDREFS" minOccurs="0"/>'
+            f'</xs:sequence><xs:attribute name="id" type="xs:ID"/><xs:attribute name="ref" type="xs:IDREF"/>'
             f'<xs:attribute name="refs" type="xs:IDREFS"/></xs:complexType></xs:element>'
             f'</xs:sequence></xs:complexType></xs:element></xs:schema>')
     arb = etree.XMLSchema(etree.fromstring(text.encode()))
@@ -294,11 +296,13 @@ def run_ids(spec, res):
         for n in range(spec['n']):
             elems = []
             ids, refs = [], []
+            attr_ids, own_child_ids = [], []
             for _ in range(rng.randint(0, 5)):
                 a = ''
                 if rng.random() < 0.6:
                     v = rng.choice(names)
                     ids.append(v)
+                    attr_ids.append((len(elems), v))
                     a += f' id="{rng.choice(("", " "))}{v}"'
                 if rng.random() < 0.4:
                     v = rng.choice(names)
@@ -308,10 +312,30 @@ def run_ids(spec, res):
                     vs = [rng.choice(names) for _ in range(rng.randint(1, 3))]
                     refs += vs
                     a += f' refs="{" ".join(vs)}"'
-                elems.append(f'<e{a}/>')
+                # the same through element content (XSD 1.0 keeps these IDs on another path than attribute IDs)
+                kids = ''
+                for _ in range(rng.choice((0, 0, 1, 2))):
+                    v = rng.choice(names)
+                    refs.append(v)
+                    kids += f'<q>{v}</q>'
+                if rng.random() < 0.4:
+                    v = rng.choice(names)
+                    ids.append(v)
+                    own_child_ids.append((len(elems), v))
+                    kids += f'<i>{v}</i>'
+                if rng.random() < 0.2:
+                    vs = [rng.choice(names) for _ in range(rng.randint(1, 3))]
+                    refs += vs
+                    kids += f'<qs>{" ".join(vs)}</qs>'
+                elems.append(f'<e{a}>{kids}</e>' if kids else f'<e{a}/>')
             doc = '<r>' + ''.join(elems) + '</r>'
             want = set()
-            if len(set(ids)) != len(ids):
+            # an ID value must be bound to one element only. XSD 1.0 binds an ID in element content to that element, XSD 1.1
+            # to its parent: there <e id="x"><i>x</i></e> binds x to e twice, which is no duplicate
+            ndup = len(ids) - len(set(ids))
+            if version == '1.1':
+                ndup -= sum(1 for pair in own_child_ids if pair in attr_ids and ids.count(pair[1]) == 2)
+            if ndup > 0:
                 want.add('duplicate-id')
             if any(r not in ids for r in refs):
                 want.add('dangling-idref')
